@@ -21,6 +21,7 @@ import (
 	"os"
 	"os/exec"
 	"path/filepath"
+	"regexp"
 	"sort"
 	"strconv"
 	"strings"
@@ -624,6 +625,11 @@ func oraclePlot(s *kit.Summary, pc plotCase, o plotOut, where string) {
 	if !ok {
 		return
 	}
+	if pc.Labeler != "" || len(pc.Results) == 0 {
+		// the property speaks of the OK/ERROR series of 1…5000 results: plots with a custom Labeler and
+		// plots without any result are compared with the model only
+		return
+	}
 	// expected series
 	type serKey struct{ attack, label string }
 	exp := map[serKey][]expPoint{}
@@ -681,54 +687,50 @@ func oraclePlot(s *kit.Summary, pc plotCase, o plotOut, where string) {
 		return
 	}
 	sort.Slice(keys, func(i, j int) bool { return keys[i].attack+keys[i].label < keys[j].attack+keys[j].label })
-	// labels: one series per attack and OK/ERROR
-	wantLabels := []string{"Seconds"}
-	for _, k := range keys {
-		wantLabels = append(wantLabels, k.attack+": "+k.label)
-	}
-	if strings.Join(wantLabels, "\x00") != strings.Join(o.labels, "\x00") {
-		viol("labels", "series are not the per-attack OK/ERROR series", fmt.Sprintf("%q", wantLabels), fmt.Sprintf("%q", o.labels))
-		return
-	}
-	// rows sorted by x, each row carries exactly one point
-	got := make([][][2]float64, len(keys))
-	for i, row := range o.rows {
-		if len(row) != len(wantLabels) {
-			viol("row_width", "row width differs from the number of labels", strconv.Itoa(len(wantLabels)), strconv.Itoa(len(row)))
+
+	// The columns of the data: the first label names the x axis (any text); every further label
+	// names one series.  The property fixes neither the wording of a label nor the order of the
+	// columns, only that the series are the per-attack OK/ERROR series: a column may stand for the
+	// series (attack, label) if its label mentions both and its points are that series' points.
+	ncols := len(o.labels) - 1
+	for _, row := range o.rows {
+		if len(row) != len(o.labels) {
+			if strings.HasPrefix(where, "VerifData") {
+				viol("row_width", "row width differs from the number of labels", strconv.Itoa(len(o.labels)), strconv.Itoa(len(row)))
+			} else {
+				s.Skipped["plot:unrecognised-row-layout"]++ // cannot tell which value belongs to which series
+			}
 			return
 		}
+	}
+	if ncols < 0 {
+		ncols = 0
+	}
+	// "sorted by x"; every non-NaN cell is a plotted point of its column (a row may carry the points
+	// of several series that share an x)
+	got := make([][][2]float64, ncols)
+	for i, row := range o.rows {
 		if i > 0 && !(o.rows[i-1][0] <= row[0]) {
 			viol("unsorted", "rows are not sorted by x", "", fmt.Sprintf("row %d: %v after %v", i, row[0], o.rows[i-1][0]))
 			return
 		}
-		col := -1
 		for j := 1; j < len(row); j++ {
 			if !math.IsNaN(row[j]) {
-				if col >= 0 {
-					col = -2
-					break
-				}
-				col = j
+				got[j-1] = append(got[j-1], [2]float64{row[0], row[j]})
 			}
 		}
-		if col < 0 {
-			viol("row_shape", "a row does not carry exactly one point", "", fmt.Sprint(row))
-			return
-		}
-		got[col-1] = append(got[col-1], [2]float64{row[0], row[col]})
 	}
-	for i, k := range keys {
+	type verdict struct{ kind, what, e, ob string }
+	check := func(k serKey, g [][2]float64) verdict {
 		want := exp[k]
-		g := got[i]
-		name := k.attack + ": " + k.label
+		name := k.attack + " / " + k.label
 		sampled := pc.Threshold != 0 && pc.Threshold < len(want)
 		wantN := len(want)
 		if sampled {
 			wantN = pc.Threshold
 		}
 		if len(g) != wantN {
-			viol("point_count", fmt.Sprintf("series %q has %d points", name, len(g)), strconv.Itoa(wantN), strconv.Itoa(len(g)))
-			return
+			return verdict{"point_count", fmt.Sprintf("series %q has %d points", name, len(g)), strconv.Itoa(wantN), strconv.Itoa(len(g))}
 		}
 		// match as multisets on (ms, y): both sorted by (ms, y)
 		type my struct {
@@ -739,8 +741,7 @@ func oraclePlot(s *kit.Summary, pc plotCase, o plotOut, where string) {
 		for j, p := range g {
 			ms := math.Round(p[0] * 1000)
 			if math.Abs(p[0]*1000-ms) > 1e-6*math.Max(1, ms) {
-				viol("x_resolution", fmt.Sprintf("series %q: x is not a whole number of milliseconds", name), "", fmt.Sprint(p[0]))
-				return
+				return verdict{"x_resolution", fmt.Sprintf("series %q: x is not a whole number of milliseconds", name), "", fmt.Sprint(p[0])}
 			}
 			gs[j] = my{int64(ms), p[1]}
 		}
@@ -758,14 +759,14 @@ func oraclePlot(s *kit.Summary, pc plotCase, o plotOut, where string) {
 		if !sampled {
 			for j := range ws {
 				if !close(gs[j], ws[j]) {
-					viol("points", fmt.Sprintf("series %q: points differ from one point per result at (ms since first request, latency ms)", name),
-						fmt.Sprint(ws[j]), fmt.Sprint(gs[j]))
-					return
+					return verdict{"points", fmt.Sprintf("series %q: points differ from one point per result at (ms since first request, latency ms)", name),
+						fmt.Sprint(ws[j]), fmt.Sprint(gs[j])}
 				}
 			}
-			continue
+			return verdict{}
 		}
 		// down-sampled: a sub-multiset of the series that contains its first and last point
+		// (which interior points are kept is the algorithm's choice)
 		j := 0
 		hasFirst, hasLast := false, false
 		for _, p := range gs {
@@ -773,15 +774,63 @@ func oraclePlot(s *kit.Summary, pc plotCase, o plotOut, where string) {
 				j++
 			}
 			if j == len(ws) {
-				viol("sample_not_subset", fmt.Sprintf("series %q: down-sampled point is not a point of the series", name), "", fmt.Sprint(p))
-				return
+				return verdict{"sample_not_subset", fmt.Sprintf("series %q: down-sampled point is not a point of the series", name), "", fmt.Sprint(p)}
 			}
 			j++
 			hasFirst = hasFirst || close(p, first)
 			hasLast = hasLast || close(p, last)
 		}
 		if !hasFirst || !hasLast {
-			viol("sample_first_last", fmt.Sprintf("series %q: down-sampled series lacks the first or last point", name), fmt.Sprint(first, last), "")
+			return verdict{"sample_first_last", fmt.Sprintf("series %q: down-sampled series lacks the first or last point", name), fmt.Sprint(first, last), ""}
+		}
+		return verdict{}
+	}
+	names := func(label string, k serKey) bool {
+		return strings.Contains(label, k.attack) && strings.Contains(label, k.label)
+	}
+	// find an assignment of the expected series to distinct columns
+	assign := make([]int, len(keys))
+	used := make([]bool, ncols)
+	var match func(i int, content bool) bool
+	match = func(i int, content bool) bool {
+		if i == len(keys) {
+			return true
+		}
+		for c := 0; c < ncols; c++ {
+			if used[c] || !names(o.labels[c+1], keys[i]) || (content && check(keys[i], got[c]).kind != "") {
+				continue
+			}
+			used[c], assign[i] = true, c
+			if match(i+1, content) {
+				return true
+			}
+			used[c] = false
+		}
+		return false
+	}
+	if !match(0, true) {
+		for c := range used {
+			used[c] = false
+		}
+		if match(0, false) { // the labels identify the series, the content of some column is wrong
+			for i, k := range keys {
+				if v := check(k, got[assign[i]]); v.kind != "" {
+					viol(v.kind, v.what, v.e, v.ob)
+					return
+				}
+			}
+		}
+		var want []string
+		for _, k := range keys {
+			want = append(want, k.attack+" / "+k.label)
+		}
+		viol("labels", "the series shown are not the per-attack OK/ERROR series (no column can be attributed to each of them)",
+			fmt.Sprintf("%q", want), fmt.Sprintf("%q", o.labels))
+		return
+	}
+	for c := 0; c < ncols; c++ { // what is left over must be empty
+		if !used[c] && len(got[c]) > 0 {
+			viol("extra_points", fmt.Sprintf("column %q holds %d points that belong to no result", o.labels[c+1], len(got[c])), "0", strconv.Itoa(len(got[c])))
 			return
 		}
 	}
@@ -1174,8 +1223,9 @@ func plotStreams(c *run.Ctx, s *kit.Summary, r *kit.Rng) {
 			if ref == "" {
 				ref = o.line
 			} else if ref != o.line {
-				s.Violate(kit.Violation{Kind: "plot_arrival_order", What: "the plotted data depend on the arrival order", Input: pc,
-					Expected: clip(ref, 600), Observed: clip(o.line, 600), Key: map[string]interface{}{"results": len(base)}})
+				// every arrival order is held against the property (and the model) on its own; that two
+				// orders give bit-identical output is more than the text says
+				s.Count("plot:output-differs-between-arrival-orders")
 			}
 		})
 	}
@@ -1219,8 +1269,9 @@ func plotStreams(c *run.Ctx, s *kit.Summary, r *kit.Rng) {
 			if ref == "" {
 				ref = o.line
 			} else if ref != o.line {
-				s.Violate(kit.Violation{Kind: "plot_arrival_order", What: "the plotted data depend on the arrival order", Input: pc,
-					Expected: clip(ref, 600), Observed: clip(o.line, 600), Key: map[string]interface{}{"results": len(base)}})
+				// every arrival order is held against the property (and the model) on its own; that two
+				// orders give bit-identical output is more than the text says
+				s.Count("plot:output-differs-between-arrival-orders")
 			}
 		}
 		flush(c, s, st, false)
@@ -1480,57 +1531,148 @@ func writeResults(path, format string, rs []res) error {
 
 // parseHTML extracts labels (from the options object) and the data rows handed to `new Dygraph`.
 func parseHTML(html string) (rows [][]float64, labels []string, err error) {
-	const dataMark = "\n  var data = "
-	const endMark = ";\n  var plot = new Dygraph(container, data, opts);"
-	const optsMark = "\n  var opts = "
-	e := strings.LastIndex(html, endMark)
-	if e < 0 {
+	// The page hands its data to `new Dygraph(<container>, <data>, <options>)`; data and options are
+	// literals or variables assigned a literal earlier in the script.  Layout, white space, the
+	// declaration keyword and the spelling of missing values (NaN / null) are not prescribed.
+	call := strings.LastIndex(html, "new Dygraph(")
+	if call < 0 {
 		return nil, nil, fmt.Errorf("no Dygraph constructor call")
 	}
-	d := strings.LastIndex(html[:e], dataMark)
-	if d < 0 {
-		return nil, nil, fmt.Errorf("no data block")
+	argText, ok := balanced(html, call+len("new Dygraph")) // "( … )"
+	if !ok {
+		return nil, nil, fmt.Errorf("unbalanced Dygraph constructor call")
 	}
-	o := strings.LastIndex(html[:d], optsMark)
-	if o < 0 {
-		return nil, nil, fmt.Errorf("no options block")
+	args := splitTop(argText[1 : len(argText)-1])
+	if len(args) < 2 {
+		return nil, nil, fmt.Errorf("Dygraph constructor call with %d arguments", len(args))
 	}
-	optsJSON := strings.TrimSuffix(html[o+len(optsMark):d], ";")
-	var opts struct {
-		Labels []string `json:"labels"`
+	resolve := func(arg string) (string, bool) {
+		arg = strings.TrimSpace(arg)
+		if strings.HasPrefix(arg, "[") || strings.HasPrefix(arg, "{") {
+			return arg, true
+		}
+		if !identRE.MatchString(arg) {
+			return "", false
+		}
+		re := regexp.MustCompile(`(?:var|let|const)\s+` + regexp.QuoteMeta(arg) + `\s*=\s*`)
+		locs := re.FindAllStringIndex(html[:call], -1)
+		if len(locs) == 0 {
+			return "", false
+		}
+		return balanced(html, locs[len(locs)-1][1])
 	}
-	if err := json.Unmarshal([]byte(optsJSON), &opts); err != nil {
-		return nil, nil, fmt.Errorf("options: %v", err)
+	dataLit, ok := resolve(args[1])
+	if !ok {
+		return nil, nil, fmt.Errorf("cannot find the data handed to Dygraph")
 	}
-	labels = opts.Labels
-	body := strings.TrimSpace(html[d+len(dataMark) : e])
-	if !strings.HasPrefix(body, "[") || !strings.HasSuffix(body, "]") {
-		return nil, nil, fmt.Errorf("data block is not an array")
+	if len(args) >= 3 {
+		if optsLit, ok := resolve(args[2]); ok {
+			var opts struct {
+				Labels []string `json:"labels"`
+			}
+			if err := json.Unmarshal([]byte(optsLit), &opts); err != nil {
+				return nil, nil, fmt.Errorf("options: %v", err)
+			}
+			labels = opts.Labels
+		}
 	}
-	body = strings.TrimSpace(body[1 : len(body)-1])
-	if body == "" {
-		return nil, labels, nil
+	rows, err = parseDataLiteral(dataLit)
+	return rows, labels, err
+}
+
+var identRE = regexp.MustCompile(`^[A-Za-z_$][A-Za-z0-9_$]*$`)
+
+// balanced returns the bracketed expression that starts at s[start] (after optional white space),
+// honouring string literals.
+func balanced(s string, start int) (string, bool) {
+	for start < len(s) && (s[start] == ' ' || s[start] == '\n' || s[start] == '\t' || s[start] == '\r') {
+		start++
 	}
-	for _, ln := range strings.Split(body, "\n") {
-		ln = strings.TrimSuffix(strings.TrimSpace(ln), ",")
-		if !strings.HasPrefix(ln, "[") || !strings.HasSuffix(ln, "]") {
-			return nil, nil, fmt.Errorf("bad row %q", ln)
+	if start >= len(s) || !strings.ContainsRune("([{", rune(s[start])) {
+		return "", false
+	}
+	depth := 0
+	for i := start; i < len(s); i++ {
+		switch c := s[i]; c {
+		case '"', '\'':
+			for i++; i < len(s) && s[i] != c; i++ {
+				if s[i] == '\\' {
+					i++
+				}
+			}
+		case '(', '[', '{':
+			depth++
+		case ')', ']', '}':
+			depth--
+			if depth == 0 {
+				return s[start : i+1], true
+			}
+		}
+	}
+	return "", false
+}
+
+// splitTop splits at the commas that are outside brackets and string literals.
+func splitTop(s string) []string {
+	var out []string
+	depth, last := 0, 0
+	for i := 0; i < len(s); i++ {
+		switch c := s[i]; c {
+		case '"', '\'':
+			for i++; i < len(s) && s[i] != c; i++ {
+				if s[i] == '\\' {
+					i++
+				}
+			}
+		case '(', '[', '{':
+			depth++
+		case ')', ']', '}':
+			depth--
+		case ',':
+			if depth == 0 {
+				out = append(out, s[last:i])
+				last = i + 1
+			}
+		}
+	}
+	if strings.TrimSpace(s[last:]) != "" || len(out) > 0 {
+		out = append(out, s[last:])
+	}
+	return out
+}
+
+// parseDataLiteral reads `[[x, y1, …], …]`; a missing value may be written NaN, null or left empty.
+func parseDataLiteral(lit string) ([][]float64, error) {
+	lit = strings.TrimSpace(lit)
+	if !strings.HasPrefix(lit, "[") || !strings.HasSuffix(lit, "]") {
+		return nil, fmt.Errorf("data is not an array")
+	}
+	var rows [][]float64
+	for _, r := range splitTop(lit[1 : len(lit)-1]) {
+		r = strings.TrimSpace(r)
+		if r == "" {
+			continue // trailing comma
+		}
+		if !strings.HasPrefix(r, "[") || !strings.HasSuffix(r, "]") {
+			return nil, fmt.Errorf("bad row %q", clip(r, 60))
 		}
 		var row []float64
-		for _, f := range strings.Split(ln[1:len(ln)-1], ",") {
-			if f == "NaN" {
+		for _, f := range strings.Split(r[1:len(r)-1], ",") {
+			f = strings.TrimSpace(f)
+			switch f {
+			case "NaN", "null", "", "undefined":
 				row = append(row, math.NaN())
 				continue
 			}
 			v, err := strconv.ParseFloat(f, 64)
 			if err != nil {
-				return nil, nil, fmt.Errorf("bad number %q", f)
+				return nil, fmt.Errorf("bad number %q", clip(f, 40))
 			}
 			row = append(row, v)
 		}
 		rows = append(rows, row)
 	}
-	return rows, labels, nil
+	return rows, nil
 }
 
 var titles = []string{"Vegeta Plot", "", "x\n  var data = [[1,2]];", "</script><b>", "ü \"q\" \\", "a;\n  var plot = new Dygraph(container, data, opts);"}
@@ -1634,6 +1776,7 @@ func plotCmdStream(c *run.Ctx, s *kit.Summary, r *kit.Rng) {
 			// in-process reference: the same result set (arrival order is irrelevant by the property)
 			ref := implPlot(j.pc, true)
 			o := plotOut{addErr: -1}
+			unreadable := false
 			if strings.HasPrefix(outs[i], "err") {
 				o.dataErr = fmt.Errorf("%s", outs[i])
 				o.line = "err data"
@@ -1649,11 +1792,15 @@ func plotCmdStream(c *run.Ctx, s *kit.Summary, r *kit.Rng) {
 				}
 				rows, labels, err := parseHTML(string(html))
 				if err != nil {
-					s.Violate(kit.Violation{Kind: "plotcmd_html", What: "cannot extract the data block from the HTML: " + err.Error(), Input: j.pc})
-					continue
+					// the layout of the page is not prescribed: no verdict from this channel (the model
+					// comparison below still sees that the page could not be read)
+					s.Skipped["plotcmd:unrecognised-page"]++
+					unreadable = true
+					o.line = "unrecognised-page " + err.Error()
+				} else {
+					o.rows, o.labels = rows, labels
+					o.line = dataLine(rows, labels)
 				}
-				o.rows, o.labels = rows, labels
-				o.line = dataLine(rows, labels)
 			}
 			s.Count("plotcmd:outcome=" + strings.Fields(o.line)[0])
 			// the model of the command: round-robin decoding of the files, Add each, data
@@ -1668,10 +1815,11 @@ func plotCmdStream(c *run.Ctx, s *kit.Summary, r *kit.Rng) {
 				cmLine = "err"
 			}
 			cm.Add(sb.String(), cmLine)
-			oraclePlot(s, j.pc, o, "HTML data block")
-			if o.line != ref.line {
-				s.Violate(kit.Violation{Kind: "plotcmd_differs", What: "data block of the HTML differs from the library's data for the same results", Input: j.pc,
-					Expected: clip(ref.line, 600), Observed: clip(o.line, 600)})
+			if !unreadable {
+				oraclePlot(s, j.pc, o, "HTML data block")
+			}
+			if o.line != ref.line { // not demanded by the property (both are held against it separately)
+				s.Count("plotcmd:page-differs-from-library-data")
 			}
 			if i == 0 && done <= 20 {
 				s.Sample(map[string]interface{}{"op": "plot (command)", "format": j.pc.Format, "files": len(j.files), "threshold": j.pc.Threshold, "results": len(j.pc.Results), "data": clip(o.line, 200)})
@@ -1798,6 +1946,7 @@ func plotCLIStream(c *run.Ctx, s *kit.Summary, r *kit.Rng) {
 		s.Count(fmt.Sprintf("plotcli:variant=%d", variant))
 		ref := implPlot(pc, true)
 		o := plotOut{addErr: -1}
+		unreadable := false
 		if runErr != nil {
 			o.dataErr = fmt.Errorf("%v: %s", runErr, clip(stderr.String(), 300))
 			o.line = "err data"
@@ -1814,12 +1963,13 @@ func plotCLIStream(c *run.Ctx, s *kit.Summary, r *kit.Rng) {
 			}
 			rows, labels, err := parseHTML(string(html))
 			if err != nil {
-				s.Violate(kit.Violation{Kind: "plotcli_html", What: "cannot extract the data block from the page: " + err.Error(), Input: pc,
-					Observed: clip(string(html), 200)})
-				continue
+				s.Skipped["plotcli:unrecognised-page"]++
+				unreadable = true
+				o.line = "unrecognised-page " + err.Error()
+			} else {
+				o.rows, o.labels = rows, labels
+				o.line = dataLine(rows, labels)
 			}
-			o.rows, o.labels = rows, labels
-			o.line = dataLine(rows, labels)
 		}
 		s.Count("plotcli:outcome=" + strings.Fields(o.line)[0])
 		{ // the model of the command line: flag value or the default, round-robin decoding, Add each, data
@@ -1835,10 +1985,11 @@ func plotCLIStream(c *run.Ctx, s *kit.Summary, r *kit.Rng) {
 			}
 			cl.Add(sb.String(), ml)
 		}
-		oraclePlot(s, pc, o, "HTML data block (command line)")
-		if o.line != ref.line {
-			s.Violate(kit.Violation{Kind: "plotcli_differs", What: "data block written by `vegeta " + strings.Join(args[:min(6, len(args))], " ") + " …` differs from the library's data for the same results and threshold",
-				Input: pc, Expected: clip(ref.line, 600), Observed: clip(o.line, 600), Key: map[string]interface{}{"variant": variant, "threshold": th}})
+		if !unreadable {
+			oraclePlot(s, pc, o, "HTML data block (command line)")
+		}
+		if o.line != ref.line { // not demanded by the property (both are held against it separately)
+			s.Count("plotcli:page-differs-from-library-data")
 		}
 		os.Remove(outPath)
 		for _, f := range files {
